@@ -237,6 +237,11 @@ func inject(k *h.Case, g *spec.Gen, prog *spec.Program, baseOut string) *injecti
 		name := g.Name("CONST_")
 		c1 := &spec.Const{ID: prog.NewID(), Name: name, Value: []string{"1"}}
 		c2 := &spec.Const{ID: prog.NewID(), Name: name, Value: []string{"2"}}
+		if r.IntN(3) == 0 {
+			// redefined with the very same value: a redefinition all the same
+			c1.Value = []string{[]string{"1", "FLAG_TEMP_1", "VAR_A + 1"}[r.IntN(3)]}
+			c2.Value = c1.Value
+		}
 		i1 := r.IntN(len(prog.Items) + 1)
 		items := append([]spec.Item{}, prog.Items[:i1]...)
 		items = append(items, c1)
@@ -270,17 +275,9 @@ func inject(k *h.Case, g *spec.Gen, prog *spec.Program, baseOut string) *injecti
 			m := lm.Moves[r.IntN(len(lm.Moves))]
 			it := &spec.TextItem{ID: prog.NewID(), Name: m.Label, Scope: r.IntN(3), Val: &spec.TextVal{ID: prog.NewID(), Parts: []string{"user text"}}}
 			addItem(it)
-			ids := []int{it.ID}
-			for _, s := range scriptsOf(rp) {
-				allCmds(s.Body, func(c *spec.Cmd) {
-					for _, a := range c.Args {
-						if a == m.First {
-							ids = append(ids, c.ID)
-						}
-					}
-				})
-			}
-			return &injection{kind, ids}
+			// (the offending construct is the statement whose name equals a generated one, not the command that holds
+			// the generated value)
+			return &injection{kind, []int{it.ID}}
 		case "movement-named-like-text":
 			if len(lm.Texts) == 0 {
 				return nil
@@ -288,7 +285,7 @@ func inject(k *h.Case, g *spec.Gen, prog *spec.Program, baseOut string) *injecti
 			t := lm.Texts[r.IntN(len(lm.Texts))]
 			it := &spec.MovementItem{ID: prog.NewID(), Name: t.Label, Steps: []*spec.ListElem{{ID: prog.NewID(), Name: "walk_up"}}}
 			addItem(it)
-			return &injection{kind, []int{it.ID, t.First.ID}}
+			return &injection{kind, []int{it.ID}}
 		case "text-clash":
 			if len(lm.Texts) == 0 {
 				return nil
@@ -296,7 +293,7 @@ func inject(k *h.Case, g *spec.Gen, prog *spec.Program, baseOut string) *injecti
 			t := lm.Texts[r.IntN(len(lm.Texts))]
 			it := &spec.TextItem{ID: prog.NewID(), Name: t.Label, Val: &spec.TextVal{ID: prog.NewID(), Parts: []string{"user text"}}}
 			addItem(it)
-			return &injection{kind, []int{it.ID, t.First.ID}}
+			return &injection{kind, []int{it.ID}}
 		case "movement-clash":
 			if len(lm.Moves) == 0 {
 				return nil
@@ -304,17 +301,9 @@ func inject(k *h.Case, g *spec.Gen, prog *spec.Program, baseOut string) *injecti
 			m := lm.Moves[r.IntN(len(lm.Moves))]
 			it := &spec.MovementItem{ID: prog.NewID(), Name: m.Label, Steps: []*spec.ListElem{{ID: prog.NewID(), Name: "walk_up"}}}
 			addItem(it)
-			ids := []int{it.ID}
-			for _, s := range scriptsOf(rp) {
-				allCmds(s.Body, func(c *spec.Cmd) {
-					for _, a := range c.Args {
-						if a == m.First {
-							ids = append(ids, c.ID)
-						}
-					}
-				})
-			}
-			return &injection{kind, ids}
+			// (the offending construct is the statement whose name equals a generated one, not the command that holds
+			// the generated value)
+			return &injection{kind, []int{it.ID}}
 		case "label-is-movement-label":
 			// a label equal to one of the hoisted movement labels of the script it is written in
 			var cands []blockCtx
@@ -548,7 +537,7 @@ func runC20(ctx *h.Ctx) int {
 		k.Nontrivial("probe", word, at, len(prog.Items))
 	})
 	return ctx.Finish(
-		"valid generated files with exactly one injected violation at a random position under scrambled layouts: break outside loop/switch (incl. inline map scripts, poryswitch cases, after a closed loop), continue outside a loop (incl. in a switch outside loops), continue not last in its block, duplicate case value (literal and via a constant), second default, redefined constant, text/movement statement named like a generated label, label statement equal to a generated sub-label of its script / the script's own name / a text label / one of the script's hoisted movement labels (anywhere, incl. unreachable code). Oracle: the result is an error (never output), it is a located error, and its start line lies inside the offending construct's source line range (either occurrence for clashes between two definitions). Plus the stale-scope probe: a fresh script / inline map script with a bare break or continue appended to any valid file must be rejected on that very line. distinct = (kind, error line, source length / 16)",
+		"valid generated files with exactly one injected violation at a random position under scrambled layouts: break outside loop/switch (incl. inline map scripts, poryswitch cases, after a closed loop), continue outside a loop (incl. in a switch outside loops), continue not last in its block, duplicate case value (literal and via a constant), second default, redefined constant, text/movement statement named like a generated label, label statement equal to a generated sub-label of its script / the script's own name / a text label / one of the script's hoisted movement labels (anywhere, incl. unreachable code). Oracle: the result is an error (never output), it is a located error, and its start line lies inside the offending construct's source line range (for a text / movement statement named like a generated label: that statement, not the command holding the inline value; for two user definitions: either). Plus the stale-scope probe: a fresh script / inline map script with a bare break or continue appended to any valid file must be rejected on that very line. distinct = (kind, error line, source length / 16)",
 		ctx.N(500, 5000),
 		[]string{"the base program (before injection) compiles; the injected construct is the only violation"})
 }
